@@ -64,12 +64,16 @@ def make_specs(ctx):
         for subset in subsets:
             P = 0 if H == 0 else rng.choice([0, 1, 3, 2 * H + 1, 3 * H + 2, 37])
             add(H, P, subset, AB=rng.random() < .5, shear=rng.random() < .3, conformity=rng.random() < .5, ranks=rng.random() < .5,
-                velbias=True, rsd=rng.random() < .7)
+                velbias=True, rsd=rng.random() < .7, punsorted=rng.random() < .5)
+    # fewer hosts than threads with a particle table in file (not host) order, all three tracers, every thread count
+    for H in (2, 3, 9, 13):
+        add(H, 6 * H + 5, c09.TRACERS, conformity=True, velbias=True, rsd=True, punsorted=True)
+        specs[-1]['force_full'] = True
     # a run with many threads costs seconds on a loaded machine: the quick tier sweeps all of 1..16 on one case per size
     # and a spread of thread counts on the others
     seen_full = set()
     for s in specs:
-        if not ctx.quick() or (s['H'] in (2, 5, 16, 17) and s['H'] not in seen_full and len(s['subset']) == 3):
+        if not ctx.quick() or s.get('force_full') or (s['H'] in (2, 5, 16, 17) and s['H'] not in seen_full and len(s['subset']) == 3):
             s['threads'] = THREADS
             seen_full.add(s['H'])
         else:
